@@ -137,6 +137,10 @@ def e37_step(sched, ep: Ep, inp, t6):
             inbound_sys = ep.fresh_sys()
         ep.seen_in.add(inbound_sys)
         ep.link.feed(link.hsms_frame(stype=0, system=inbound_sys, session=0, stream=1, function=2, wbit=False, body=b"\x01\x00"))
+    elif k == "PrimaryFor":
+        inbound_sys = ep.last_app_req if ep.last_app_req is not None else ep.fresh_sys()
+        ep.seen_in.add(inbound_sys)
+        ep.link.feed(link.hsms_frame(stype=0, system=inbound_sys, session=0, stream=1, function=1, wbit=inp["w"], body=b""))
     elif k == "Ctrl":
         st = STNUM[inp["st"]]
         if inp["sys"] == "open":
